@@ -308,8 +308,11 @@ class OnlineVariance(object):
                     squares = cnt*(average - avg)**2
                 else:
                     squares += cnt*(average - avg)**2
-            if var is not np.nan:
-                squares += cnt*var 
+            # NaN marks a rank with fewer than two samples. It must be
+            # tested by value: after an MPI exchange it is no longer
+            # the np.nan object
+            if not np.all(np.isnan(var)):
+                squares += cnt*var
         # squares = counts*variances
         # squares += counts*(average - averages)**2
 
